@@ -115,10 +115,12 @@ func VH_proxyproto() {
 func VH_regexp() {
 	raceMatch(func() layer4.ConnMatcher { return &l4regexp.MatchRegexp{Pattern: "^GET /", Count: 5} }, 6)
 }
-func VH_wireguard() { raceMatch(func() layer4.ConnMatcher { return &l4wireguard.MatchWireGuard{} }, 148) }
-func VH_tls()       { raceMatch(func() layer4.ConnMatcher { return l4tls.VerifNewMatchTLS() }, 5+47) }
-func VH_rdp()       { raceMatch(func() layer4.ConnMatcher { return &l4rdp.MatchRDP{} }, 16) }
-func VH_winbox()    { raceMatch(func() layer4.ConnMatcher { return &l4winbox.MatchWinbox{} }, 40) }
+func VH_wireguard() {
+	raceMatch(func() layer4.ConnMatcher { return &l4wireguard.MatchWireGuard{} }, 148)
+}
+func VH_tls()    { raceMatch(func() layer4.ConnMatcher { return l4tls.VerifNewMatchTLS() }, 5+47) }
+func VH_rdp()    { raceMatch(func() layer4.ConnMatcher { return &l4rdp.MatchRDP{} }, 16) }
+func VH_winbox() { raceMatch(func() layer4.ConnMatcher { return &l4winbox.MatchWinbox{} }, 40) }
 func VH_openvpn() {
 	raceMatch(func() layer4.ConnMatcher { return &l4openvpn.MatchOpenVPN{IgnoreTimestamp: true} }, 58)
 }
